@@ -8,10 +8,12 @@
 //   B                      world.barrier()
 //   size c | count c =k | forall c | gather c <rank|-1> =k ... | topk c n | swap | clear c
 //   consume c vis | consumeiter c vis            (sets)
-// Output per rank (hc::out): `I <line>` when a main operation is issued, `cb <c> <record>` for every
+// Output per rank (hc::out): `I <line>` just before a main operation is issued, `P` (1-rank runs only) when a message is
+// packed into the send buffer, `cb <c> <record>` for every
 // user-lambda invocation, `em <c> <op>` for every operation a lambda issues, `M <line>` when a
 // directive other than `o` completes, followed by its answer (`S n`, `C n`, `F pairs`, `G pairs`, `T pairs`).
 // The user lambdas are the table `mapUser` / `setUser` of lean/Driver/MapSet.lean.
+#define HC_OWN_HOOK
 #include "hcommon.hpp"
 #include <ygm/comm.hpp>
 #include <ygm/container/map.hpp>
@@ -22,6 +24,13 @@
 
 using i64 = int64_t;
 static const i64 MOD = 1000003;
+
+// 1-rank runs: `P` marks the moment a message is packed into the send buffer (comm.ipp hook "pk"); on one rank
+// the execution order is the packing order
+static bool g_log_pack = false;
+extern "C" void ygm_verif_hook(const char* tag, long, long, long) {
+  if (g_log_pack && tag[0] == 'p' && tag[1] == 'k' && tag[2] == 0) hc::out("P");
+}
 
 template <class T> struct codec;
 template <> struct codec<std::string> {
@@ -254,6 +263,7 @@ template <class K, bool MULTI> int run_set(ygm::comm& world, const std::vector<s
 extern "C" int sim_main(int argc, char** argv) {
   ygm::comm world(MPI_COMM_WORLD);
   hc::open_out(world.rank());
+  g_log_pack = world.size() == 1;
   if (argc < 4) { hc::out("usage"); return 2; }
   std::string what = argv[1], kinds = argv[2];
   auto lines = read_lines(argv[3]);
